@@ -115,27 +115,28 @@ type OpResult struct {
 
 // Result is the observation of a cell.
 type Result struct {
-	Ops          []OpResult `json:"ops"`
-	Panic        string     `json:"panic,omitempty"`
-	PluginPid    int        `json:"plugin_pid,omitempty"`
-	PluginAlive  bool       `json:"plugin_alive"`
-	PluginFiles  []string   `json:"plugin_files"` // entries left in the plugin's socket dir
-	HostFiles    []string   `json:"host_files"`   // entries left in the host's temp dir
-	ExitMarker   bool       `json:"exit_marker"`
-	Goroutines   []string   `json:"goroutines,omitempty"` // go-plugin goroutines left in the host
-	SyncOut      string     `json:"sync_out,omitempty"`
-	SyncErr      string     `json:"sync_err,omitempty"`
-	Addr         string     `json:"addr,omitempty"`          // network|address returned by the last successful Start
-	XlateRefused int64      `json:"xlate_refused,omitempty"` // addresses the container-like runner refused to translate
-	PluginLog    string     `json:"plugin_log,omitempty"`    // tail of the plugin's raw stderr (ClientConfig.Stderr), for diagnosis
-	Protocol     string     `json:"protocol,omitempty"`
-	Version      int        `json:"version"`
-	Env          []string   `json:"env,omitempty"`
-	HelperErr    string     `json:"helper_err,omitempty"`
-	StdinIsHost  bool       `json:"stdin_is_host"`
-	StdinSeen    string     `json:"stdin_seen,omitempty"`   // what a real child read from its stdin (env:cmdstdin)
-	StderrLines  int        `json:"stderr_lines,omitempty"` // complete lines that reached ClientConfig.Stderr
-	SocketDir    string     `json:"socket_dir,omitempty"`
+	Ops            []OpResult `json:"ops"`
+	Panic          string     `json:"panic,omitempty"`
+	PluginPid      int        `json:"plugin_pid,omitempty"`
+	PluginAlive    bool       `json:"plugin_alive"`
+	PluginFiles    []string   `json:"plugin_files"` // entries left in the plugin's socket dir
+	HostFiles      []string   `json:"host_files"`   // entries left in the host's temp dir
+	ExitMarker     bool       `json:"exit_marker"`
+	Goroutines     []string   `json:"goroutines,omitempty"` // go-plugin goroutines left in the host
+	SyncOut        string     `json:"sync_out,omitempty"`
+	SyncErr        string     `json:"sync_err,omitempty"`
+	Addr           string     `json:"addr,omitempty"`          // network|address returned by the last successful Start
+	XlateRefused   int64      `json:"xlate_refused,omitempty"` // addresses the container-like runner refused to translate
+	PluginLog      string     `json:"plugin_log,omitempty"`    // tail of the plugin's raw stderr (ClientConfig.Stderr), for diagnosis
+	Protocol       string     `json:"protocol,omitempty"`
+	Version        int        `json:"version"`
+	Env            []string   `json:"env,omitempty"`
+	HelperErr      string     `json:"helper_err,omitempty"`
+	StdinIsHost    bool       `json:"stdin_is_host"`
+	StdinSeen      string     `json:"stdin_seen,omitempty"`   // what a real child read from its stdin (env:cmdstdin)
+	StderrLines    int        `json:"stderr_lines,omitempty"` // complete lines that reached ClientConfig.Stderr
+	SocketDir      string     `json:"socket_dir,omitempty"`
+	SocketDirState string     `json:"socket_dir_state,omitempty"` // ok | missing | outside-TempDir (RunnerFunc launches)
 }
 
 const cookieKey, cookieVal = "VERIF_PLUGIN_COOKIE", "c0ffee"
@@ -909,10 +910,29 @@ func RunCell(c *Cell) (res *Result) {
 			cfg.Cmd = nil
 			cfg.UnixSocketConfig = &plugin.UnixSocketConfig{TempDir: hostTmp, Group: c.Host.Group}
 			cfg.MinPort, cfg.MaxPort = c.Host.MinPort, c.Host.MaxPort
+			if arg == "symlinktmp" {
+				// the configured TempDir exists and is writable, but its path goes through a symlink followed by "..":
+				// current -> releases/v5, TempDir = current/../shared, which the kernel resolves to releases/shared
+				os.MkdirAll(filepath.Join(hostTmp, "releases", "v5"), 0o755)
+				os.MkdirAll(filepath.Join(hostTmp, "releases", "shared"), 0o755)
+				os.Symlink(filepath.Join("releases", "v5"), filepath.Join(hostTmp, "current"))
+				cfg.UnixSocketConfig.TempDir = filepath.Join(hostTmp, "current") + "/../shared"
+			}
+			tempDir := cfg.UnixSocketConfig.TempDir
 			cfg.RunnerFunc = func(l hclog.Logger, cmd *exec.Cmd, tmp string) (runner.Runner, error) {
 				res.Env = append([]string(nil), cmd.Env...)
 				res.StdinIsHost = cmd.Stdin == os.Stdin
 				res.SocketDir = tmp
+				// the directory handed over exists and lies inside the configured TempDir (as the kernel resolves both)
+				res.SocketDirState = "missing"
+				if fi, err := os.Stat(tmp); err == nil && fi.IsDir() {
+					res.SocketDirState = "outside-TempDir"
+					rt, e1 := filepath.EvalSymlinks(tmp)
+					rd, e2 := filepath.EvalSymlinks(tempDir)
+					if e1 == nil && e2 == nil && filepath.Dir(rt) == rd {
+						res.SocketDirState = "ok"
+					}
+				}
 				return nil, errors.New("capture only")
 			}
 			dump := filepath.Join(c.Dir, "envdump")
